@@ -131,12 +131,62 @@ def compare_world(facts, rep, w, tag, floor):
     return mm
 
 
+def argument_only_refusals(facts, rep, w, tag, mm):
+    """every refusal of the in-memory backend is a statement about the stored entries (something is missing, occupied, of
+    the wrong type, not empty) — the conditions a real filesystem enforces.  A refusal decided by the argument alone (the
+    root, an empty name, a suffix) is one the physical backend does not make"""
+    from ..terms import walk, fmt_guard, short
+    n = 0
+
+    def about_entries(t):
+        for x in walk(t):
+            if x[0] == "field" and x[2] in mm.map_fields():
+                return True
+            if x[0] == "call" and isinstance(x[1], str) and x[1].split("::")[0] in ("HashMap", "BTreeMap", "Entry", "OccupiedEntry",
+                                                                                      "VacantEntry", "hash_map", "btree_map"):
+                return True
+        return False
+
+    def about_argument(t):
+        if any(x[0] == "call" and isinstance(x[1], str) and x[1].split("<")[0] in ("Future::poll", "RwLock::read", "RwLock::write", "Mutex::lock")
+               for x in walk(t)):
+            return False        # waiting for the lock is not a condition on the path
+        return any(x[0] == "arg" and x[1] >= 1 for x in walk(t))
+    for op, b in sorted(mm.ops.items()):
+        for cb in mm.inter.code_bodies(b):
+            for blk in cb.blocks:
+                if blk.cleanup:
+                    continue
+                for st in blk.stmts:
+                    if not (st.kind == "assign" and st.rv.kind == "agg" and st.rv.agg.get("adt") == "error::VfsErrorKind"):
+                        continue
+                    gs = mm.guards(cb, blk.idx)
+                    if not gs:
+                        continue
+                    # the kind handed to `lookup.ok_or(kind)` is the answer to a failed lookup wherever it is built
+                    t_ = blk.term
+                    if t_.kind == "call" and short(t_.callee() or "") in ("Option::ok_or", "Option::ok_or_else") and st.lhs.is_local() and \
+                            any(a.kind in ("move", "copy") and a.place.is_local() and a.place.local == st.lhs.local for a in t_.args):
+                        continue
+                    ent = [g for g in gs if about_entries(g[1])]
+                    arg = [g for g in gs if not about_entries(g[1]) and about_argument(g[1])]
+                    bad = bool(arg) and not ent
+                    n += 1
+                    rep.ob(tag + "R02.1r", b.id, "%s: %s is refused because of the stored entries" % (op, st.rv.agg.get("variant")), not bad,
+                           "" if not bad else "%s refuses with %s under a condition on its argument only (%s): PhysicalFS has no such "
+                           "refusal" % (op, st.rv.agg.get("variant"), "; ".join(fmt_guard(g)[:60] for g in arg)), st.line)
+    return n
+
+
 def run(facts, rep, tier, ctx):
     ws = World(facts, False)
     mm = compare_world(facts, rep, ws, "", 18)
+    argument_only_refusals(facts, rep, ws, "", mm)
     wa_ = World(facts, True)
     if wa_.present():
-        compare_world(facts, rep, wa_, "A/", 14)
+        mma_ = compare_world(facts, rep, wa_, "A/", 14)
+        if mma_ is not None:
+            argument_only_refusals(facts, rep, wa_, "A/", mma_)
     c12.run_error_rs(facts, rep)  # NotFound normalisation etc. (R12.3a) — PhysicalFS side of the class agreement
     physrules.table_o_shape(facts, rep, "R02.2p", ws)
     # R02.5 the physical translator joins the path argument itself: names that are valid on the host (dots-only, backslashes)
@@ -175,4 +225,11 @@ def run(facts, rep, tier, ctx):
             ha.handle_surface_rules(A, "R02.4")
         k += physrules.table_o_shape(facts, A, "R02.2p", wa)
         rep.floor("async in-memory handle / physical obligations", k, 40)
+        # the async path type has its own copy of the backend-independent checks and of the stream route (which only the
+        # in-memory backend takes: the physical one has native copy/rename) — a refusal or an error class that differs
+        # there is a difference between the two async backends
+        pra = PathRules(facts, wa, D)
+        pra.table_p(A, "R02.3")
+        pra.generic_routes(A, "R02.3g")
+    PathRules(facts, ws, D).generic_routes(rep, "R02.3g")
     rep.assume("Table O is what Linux/POSIX enforce for the std calls; O_APPEND seek semantics are excluded by the property")
